@@ -54,6 +54,10 @@ impl ZXAyChip {
 
     pub fn set_regs(&mut self, regs: &[u8]) {
         self.regs.copy_from_slice(&regs[..16]);
+        // Program the sound chip itself, not only the read-back copy
+        for (reg, value) in self.regs.iter().enumerate() {
+            self.ay.write_register(reg as u8, *value);
+        }
     }
 }
 
